@@ -28,7 +28,16 @@ def node_toks(n):
     return out
 
 
+FRAGMENTS = ["visit", "visit-", "-visit-", "Visit-", "literal", "Literal", "node", "skip-visit", "--", "-", "0", "call", "init", "method"]
+
+
 def rand_name(rng):
+    if rng.random() < 0.25:
+        # names built from the dispatcher's own vocabulary (the handler prefix, the leaf handler's name, ...) and from hyphen
+        # runs: whatever the dispatcher strips, splits or looks up by must not be confused by them
+        parts = [rng.choice(FRAGMENTS) for _ in range(rng.randint(1, 3))]
+        nm = rng.choice("abvVlL") + "".join(parts) + rng.choice(["", "x", "-date", "1"])
+        return nm.rstrip("-") or "v"
     return rng.choice("abcdefghijklmnopqrstuvwxyzABCDEFGHIJKLMNOPQRSTUVWXYZ") + "".join(
         rng.choice(NAMECH) for _ in range(rng.randint(0, 8)))
 
@@ -68,6 +77,43 @@ def mutate_tree(rng, n):
     return P.Node(n.name, *(ch + [P.LiteralNode("", 0, 0)]))
 
 
+def _quiet(f):
+    try:
+        f()
+    except Exception:  # noqa: BLE001  (a warm-up visit may reach a handler that raises on purpose)
+        pass
+
+
+def edit_in_place(rng, n):
+    """the same tree object after a few in-place edits of children lists (returns n itself)"""
+    if isinstance(n, P.LiteralNode):
+        return n
+    for _ in range(rng.randint(1, 3)):
+        nodes = [n]
+        stack = [n]
+        while stack:
+            x = stack.pop()
+            for c in getattr(x, "children", []):
+                if not isinstance(c, P.LiteralNode):
+                    nodes.append(c)
+                    stack.append(c)
+        tgt = rng.choice(nodes)
+        k = rng.randrange(4)
+        try:
+            if k == 0:
+                tgt.children.append(P.LiteralNode(rng.choice(["", "a", "B"]), rng.randint(0, 3), rng.randint(0, 2)))
+            elif k == 1 and tgt.children:
+                tgt.children.pop(rng.randrange(len(tgt.children)))
+            elif k == 2 and tgt.children:
+                j = rng.randrange(len(tgt.children))
+                tgt.children[j] = clone(tgt.children[j])
+            else:
+                tgt.children.insert(0, P.Node(rng.choice(["a", "A", "x1"])))
+        except AttributeError:
+            pass
+    return n
+
+
 def main():
     ap = argparse.ArgumentParser()
     ap.add_argument("--seed", type=int, default=0)
@@ -93,8 +139,18 @@ def main():
         keys = sorted({x.replace("-", "_").lower() for x in chosen})
         calls = []
         ns = {}
+        raising = rng.random() < 0.15
+        exc_type = rng.choice([KeyError, AttributeError, TypeError, LookupError, StopIteration, ValueError])
+
+        def mk(hid):
+            def h(self, node):
+                calls.append((hid, node))
+                if raising:
+                    raise exc_type("raised by handler %d" % hid)
+                return ("R", hid)
+            return h
         for hid, k in enumerate(keys):
-            ns["visit_" + k] = (lambda self, node, hid=hid: calls.append((hid, node)) or ("R", hid))
+            ns["visit_" + k] = mk(hid)
         # handlers may live in the class itself, in a base visitor class, in a mixin, or two levels up
         shape = rng.randrange(5)
         # ancestors may have been instantiated (and used) BEFORE the visitor class at hand is first used: anything a visitor
@@ -107,14 +163,14 @@ def main():
         elif shape == 1:
             Base = type("BaseV", (P.NodeVisitor,), ns)
             if warm:
-                Base().visit(P.Node("warm-up"))
+                _quiet(lambda: Base().visit(P.Node("warm-up")))
             V = type("V", (Base,), {})
         elif shape == 4:
             items = list(ns.items())
             half = len(items) // 2
             Base = type("BaseV", (P.NodeVisitor,), dict(items[:half]))
             if warm:
-                Base().visit(P.Node(variant, P.LiteralNode("x", 0, 1)))
+                _quiet(lambda: Base().visit(P.Node(variant, P.LiteralNode("x", 0, 1))))
             V = type("V", (Base,), dict(items[half:]))
         elif shape == 2:
             items = list(ns.items())
@@ -125,7 +181,7 @@ def main():
             items = list(ns.items())
             Top = type("TopV", (P.NodeVisitor,), dict(items[::2]))
             if warm:
-                Top().visit(P.Node(variant))
+                _quiet(lambda: Top().visit(P.Node(variant)))
             Mid = type("MidV", (Top,), dict(items[1::2]))
             if warm and rng.random() < 0.5:
                 Mid()
@@ -147,6 +203,28 @@ def main():
             node = P.LiteralNode("x", 0, 1)
         if isinstance(node, P.LiteralNode):
             stats["leaf_dispatch"] += 1
+        if raising:
+            # an exception raised INSIDE a handler is the caller's business: it must come out of visit() and __call__ as it is
+            outs_ = []
+            for fn in (v.visit, v):
+                calls.clear()
+                try:
+                    r = fn(node)
+                    outs_.append("NONE" if (r is None and not calls) else "EXC:handler-exception-swallowed" if calls else "EXC:returned")
+                except exc_type as e:
+                    outs_.append(f"CALLED {calls[0][0]}" if len(calls) == 1 and calls[0][1] is node and "raised by handler" in str(e) else "EXC:wrong-exception")
+                except Exception as e:  # noqa: BLE001
+                    outs_.append("EXC:" + type(e).__name__)
+            impl = outs_[0] if outs_[0] == outs_[1] else "EXC:call-and-visit-differ"
+            stats["raising_handlers"] = stats.get("raising_handlers", 0) + 1
+            toks = ["VISIT", str(len(keys))]
+            for hid, k in enumerate(keys):
+                toks += stoks(k) + [str(hid)]
+            toks += node_toks(node)
+            lines.append(" ".join(toks))
+            plan.append(("visit", {"name": variant, "handlers": keys, "handler_raises": exc_type.__name__}, impl))
+            stats["called" if impl.startswith("CALLED") else "none"] += 1
+            continue
         try:
             r1 = v.visit(node)
             r2 = v(node)
@@ -169,6 +247,11 @@ def main():
     for _ in range(a.n):
         t1 = rand_tree(rng, 3)
         t2 = clone(t1) if rng.random() < 0.4 else (mutate_tree(rng, t1) if rng.random() < 0.7 else rand_tree(rng, 3))
+        if rng.random() < 0.3:
+            # trees EDITED IN PLACE after construction (children is a public list: pruning comment nodes, appending to a node
+            # built empty, replacing a leaf): equality must look at the tree as it is now
+            t1, t2 = edit_in_place(rng, t1), edit_in_place(rng, t2)
+            stats["edited_in_place"] = stats.get("edited_in_place", 0) + 1
         try:
             impl = "1" if (t1 == t2) else "0"
             if (t2 == t1) != (t1 == t2):
